@@ -13,7 +13,7 @@ from ..spec import Tree, to_statechart, to_yaml_text
 
 PROP = 'C19'
 LEVEL = 'exploration'
-BUDGET = {'quick': 640, 'thorough': 9600}
+BUDGET = {'quick': 2400, 'thorough': 32000}
 CASE_TIMEOUT = 180
 RULE = ('cases = loop-free executable chart (variables x, y; actions send output events with '
         'parameters; eventless transitions guarded by after(d>=1)) + a feature file of 6-14 '
@@ -41,6 +41,21 @@ def strategy(tier):
     def cases(draw):
         spec = draw(gen.charts(max_states=8, mix=MIX, max_tr=10, min_tr=4, n_events=3,
                                p_eventless=0.15, p_orth_root=0.2, root_final=0.3, p_hist=0.2))
+        if draw(st.floats(0, 1)) < 0.35:
+            # state names that contain one another (on/button, s1/s10, open/opened)
+            pool = draw(st.permutations(['on', 'button', 'but', 's1', 's10', 's100', 's11', 'open',
+                                         'opened', 'a', 'ab', 'abc', 'x', 'xy', 'off', 'of']))
+            ren = {x['name']: (pool[k] if k < len(pool) else 'q%d' % k)
+                   for k, x in enumerate(spec['states'])}
+            for x in spec['states']:
+                x['name'] = ren.get(x['name'], x['name'])
+                for key in ('parent', 'initial', 'memory'):
+                    if x.get(key) is not None:
+                        x[key] = ren.get(x[key], x[key])
+            for t in spec['transitions']:
+                t['source'] = ren.get(t['source'], t['source'])
+                if t.get('target') is not None:
+                    t['target'] = ren.get(t['target'], t['target'])
         # 'basket' profile: the chart keeps list-valued event parameters and mutates them in place
         basket = draw(st.floats(0, 1)) < 0.25
         seen = set()
